@@ -89,14 +89,18 @@ func (version Version) MarshalControl() (string, error) {
 
 func (v Version) StringWithoutEpoch() string {
 	result := v.Version
-	if len(v.Revision) > 0 {
+	if len(v.Revision) > 0 || strings.Contains(v.Version, "-") {
+		// An upstream version containing a hyphen is only parsed back as
+		// such when a (possibly empty) revision follows it.
 		result += "-" + v.Revision
 	}
 	return result
 }
 
 func (v Version) String() string {
-	if v.Epoch > 0 {
+	if v.Epoch > 0 || strings.Contains(v.Version, ":") {
+		// An upstream version containing a colon needs an explicit epoch,
+		// or its first component would be parsed as the epoch.
 		return fmt.Sprintf("%d:%s", v.Epoch, v.StringWithoutEpoch())
 	}
 	return v.StringWithoutEpoch()
